@@ -1,6 +1,6 @@
 (* C01: generated serializers emit exactly the DSDL wire representation.
    Statements only; proofs in Spec/WireThm*.v (specification level) and Codec/Refine.v, Codec/RefineSer*.v (code-shaped walker). *)
-From Verif Require Import Wire WireThm WireThmRt WireThmValid Walker Refine RefineSerBits PrimsOn RefineSerBase RefineSer Gen_C01 GenC01Thm InstancesC InstancesCpp InstancesPy.
+From Verif Require Import Wire WireThm WireThmRt WireThmValid Walker Refine RefineSerBits PrimsOn RefineSerBase RefineSer Gen_C01 GenC01Thm InstancesC InstancesCpp InstancesPy InstancesTyped BulkArrays BulkArraysTie PyWalker PyWalkerThm InstancesPySer.
 Local Open Scope nat_scope.
 
 (* every encoding of every well-formed type lies within the exported bounds; composites are whole bytes *)
@@ -137,6 +137,106 @@ Example c01_instances_run :
     Some (firstn 6 (repeat true 24) ++ repeat false 5 ++ skipn 11 (repeat true 24)) /\
   set_bits py_prims (repeat false 24) 3 (bits_of_N 13 4097) = Some (repeat false 3 ++ bits_of_N 13 4097 ++ repeat false 8).
 Proof. vm_compute. repeat split; reflexivity. Qed.
+
+(* ROUND 3: the links that were tied by correspondence only.
+   (a) TYPED MEMBERS (Codec/InstancesTyped.v; C14 set_ixx_is_set_uxx, set_bit_is_set_uxx, c_float_members_are_integer_members,
+       cpp_float_members_are_c): what the generated code calls for signed / boolean / float fields is the walker's raw store of
+       the walker's bit vector, so c01_c_walk_ser_refines / c01_cpp_walk_ser_refines cover those fields as executed. *)
+Theorem c01_c_SetIxx_is_walker_store : forall little buf off (z : Z) w, c_dom buf -> w <= 64 -> off + w <= length buf ->
+  c_view (CPrims.set_ixx little (InstancesBase.bytes_of_bits buf) (CPrims.blen (InstancesBase.bytes_of_bits buf)) (N.of_nat off) z (N.of_nat w)) =
+    set_bits (c_prims little) buf off (bits_of_N w (Z.to_N (z mod pow2 w))).
+Proof. exact c_SetIxx_is_walker_store. Qed.
+Print Assumptions c01_c_SetIxx_is_walker_store.
+
+Theorem c01_c_SetBit_is_walker_store : forall little buf off (b : bool), c_dom buf -> off + 1 <= length buf ->
+  c_view (CPrims.set_bit (InstancesBase.bytes_of_bits buf) (CPrims.blen (InstancesBase.bytes_of_bits buf)) (N.of_nat off) b) =
+    set_bits (c_prims little) buf off [b].
+Proof. exact c_SetBit_is_walker_store. Qed.
+Print Assumptions c01_c_SetBit_is_walker_store.
+
+Theorem c01_c_SetF_is_walker_store : forall little buf off sat x, c_dom buf ->
+  let b := InstancesBase.bytes_of_bits buf in
+  (off + 16 <= length buf ->
+     c_view (CPrims.set_f16 little b (CPrims.blen b) (N.of_nat off) (float_arg 16 sat x)) = set_bits (c_prims little) buf off (bits_of_N 16 (cast_f 16 sat x))) /\
+  (off + 32 <= length buf ->
+     c_view (CPrims.set_f32 little b (CPrims.blen b) (N.of_nat off) x) = set_bits (c_prims little) buf off (bits_of_N 32 (cast_f 32 sat x))) /\
+  (off + 64 <= length buf ->
+     c_view (CPrims.set_f64 little b (CPrims.blen b) (N.of_nat off) x) = set_bits (c_prims little) buf off (bits_of_N 64 (cast_f 64 sat x))).
+Proof. exact c_SetF_is_walker_store. Qed.
+Print Assumptions c01_c_SetF_is_walker_store.
+
+(* (b) BULK ARRAY PATHS (Codec/BulkArrays.v; C14 copy_bits_exact_b, le_image_bit).  TplTie.c_array_paths shows the templates emit
+       ONE nunavutCopyBits exactly for bool / zero-cost primitive elements; here that call is the walker's element loop. *)
+Theorem c01_array_loop_is_one_store : forall P L, set_law P L -> forall p, prim_wf p = true -> std_prim p = true -> forall l buf off B,
+  forallb (prim_storage_ok p) l = true -> enc_list (enc_field (TPrim p)) l = Ok B ->
+  length buf = L -> off + length l * prim_bits p <= L ->
+  ws_list (ws_field P (ws_body P) (TPrim p)) l buf off = Ok (firstn off buf ++ B ++ skipn (off + length B) buf, off + length B).
+Proof. exact loop_is_one_store. Qed.
+Print Assumptions c01_array_loop_is_one_store.
+
+Theorem c01_c_bulk_ser_equals_element_loop : forall little p l (xs : list N) buf off cap,
+  prim_wf p = true -> std_prim p = true -> forallb (prim_storage_ok p) l = true ->
+  enc_list (enc_field (TPrim p)) l = Ok (concat (map (bits_of_N (prim_bits p)) xs)) -> length xs = length l ->
+  length buf = 8 * cap -> (N.of_nat (8 * cap) < CPrims.two64)%N -> off + length l * prim_bits p <= 8 * cap ->
+  let nbits := length l * prim_bits p in
+  match CPrims.copy_bits (InstancesBase.bytes_of_bits buf) (N.of_nat off) (N.of_nat nbits) (PrimsExt.le_image (prim_bits p / 8) xs) 0 with
+  | Some r => Ok (bits_of_bytes r, off + nbits)
+  | None => Err ETooSmall
+  end = ws_list (ws_field (c_prims little) (ws_body (c_prims little)) (TPrim p)) l buf off.
+Proof. exact c_bulk_ser_equals_element_loop. Qed.
+Print Assumptions c01_c_bulk_ser_equals_element_loop.
+
+Theorem c01_c_bulk_bool_ser : forall (bs : list bool) buf off, c_dom buf -> off + length bs <= length buf ->
+  c_copy_view (CPrims.copy_bits (InstancesBase.bytes_of_bits buf) (N.of_nat off) (N.of_nat (length bs)) (InstancesBase.bytes_of_bits bs) 0) =
+    Some (firstn off buf ++ bs ++ skipn (off + length bs) buf).
+Proof. exact c_bulk_bool_ser. Qed.
+Print Assumptions c01_c_bulk_bool_ser.
+
+Theorem c01_c_bulk_bool_vs_loop : forall little (bs : list bool) buf off cap,
+  length buf = 8 * cap -> (N.of_nat (8 * cap) < CPrims.two64)%N -> off + length bs <= 8 * cap ->
+  let bulk := firstn off buf ++ bs ++ skipn (off + length bs) buf in
+  exists buf', ws_list (ws_field (c_prims little) (ws_body (c_prims little)) (TPrim PBool)) (map VBool bs) buf off
+                 = Ok (buf', off + length bs) /\
+               firstn (off + length bs) buf' = firstn (off + length bs) bulk /\
+               skipn (r8 (off + length bs)) buf' = skipn (r8 (off + length bs)) bulk.
+Proof. exact c_bulk_bool_vs_loop. Qed.
+Print Assumptions c01_c_bulk_bool_vs_loop.
+
+(* the connector between TplTie.c_array_paths (bulk call emitted iff bool or `is zero_cost_primitive`) and the bulk theorems: the
+   TRANSLATED zero-cost predicate holds only for standard-width integer / float elements on a little-endian target *)
+Theorem c01_zero_cost_is_std_prim : forall e p,
+  is_zero_cost_primitive e (desc_of_prim p) = Some true -> std_prim p = true /\ e = endian_little.
+Proof. exact zero_cost_is_std_prim. Qed.
+Print Assumptions c01_zero_cost_is_std_prim.
+
+(* (c) PYTHON SERIALIZATION (Codec/PyWalker.v: a walker shaped after py/templates/serialization.j2 - append-only Serializer,
+       skips instead of zero writes, nested delimited objects in a fork 32 bits on and the header written by the parent afterwards;
+       PyWalkerThm.v, InstancesPySer.v): over the shipped Serializer members it emits the specification's bytes, for every
+       well-formed composite type and EVERY value (no storage proviso: Python integers are unbounded). *)
+Theorem c01_py_walk_ser_refines : forall u fs ext v cap,
+  wf_ty (TComp u fs ext) = true -> bmax (TComp u fs ext) <= 8 * cap ->
+  py_walk_ser py_pyprims (TComp u fs ext) v cap = ser_spec (TComp u fs ext) v cap.
+Proof. exact py_walk_ser_refines. Qed.
+Print Assumptions c01_py_walk_ser_refines.
+
+Theorem c01_py_walk_ser_refines_from_laws : forall Q u fs ext v cap, add_law Q (8 * cap) -> hdr_law Q (8 * cap) ->
+  wf_ty (TComp u fs ext) = true -> bmax (TComp u fs ext) <= 8 * cap ->
+  py_walk_ser Q (TComp u fs ext) v cap = ser_spec (TComp u fs ext) v cap.
+Proof. exact py_walk_ser_refines_on. Qed.
+Print Assumptions c01_py_walk_ser_refines_from_laws.
+
+(* add_aligned_u32 of the delimiter header is a plain 4-byte store (proved without the Serializer invariant) *)
+Theorem c01_py_header_store_plain : forall L, L mod 8 = 0 -> hdr_law py_pyprims L.
+Proof. exact py_hdr_plain. Qed.
+Print Assumptions c01_py_header_store_plain.
+
+Definition ex_union_r3 : ty :=
+  TComp true [TPrim (PU 8 true); TComp false [TPrim (PU 3 true); TPrim (PS 13 true); TPrim (PF 16 true)] (Some 64);
+              TVar (TPrim PBool) 9] None.
+Example c01_py_walker_runs :
+  py_walk_ser py_pyprims ex_union_r3 (VUnion 1 (VStruct [VInt 9; VInt (-5000); VFlt 1065357312%N])) 13 =
+  Ok (bits_of_N 8 1 ++ bits_of_N 32 4 ++ bits_of_N 3 7 ++ bits_of_N 13 4096 ++ bits_of_N 16 15361).
+Proof. vm_compute. reflexivity. Qed.
 
 (* TRANSLATOR TIE (Generated/Gen_C01.v is rewritten from /repo's Python source on every run; Codec/GenC01Thm.v): the helper
    functions the serialization templates call are what the walker assumes.  filter_bits2bytes_ceil is ceil(n/8) and agrees with
